@@ -10,6 +10,7 @@ CONSTANT DocMenu <- DMg
 CONSTANT Lims <- L0
 CONSTANT MaxSteps = 6
 CONSTANT Thin = 1
+CONSTANT KeepRoleHist = FALSE
 CONSTANT PageGap = FALSE
 SPECIFICATION Spec
 VIEW view
